@@ -37,12 +37,16 @@ META = {
             "verifier (vmc/refs/exhash.py: cryptography / nacl, no paramiko) confirms over the exchange hash under "
             "the presented key blob, and NEWKEYS was sent, server "
             "callbacks see credentials only then. B: Transport.connect(hostkey=K) for K in {same, other key same "
-            "type, other type} x 5 server key sets x {password, pkey}. Dimension 'process history' (A and B, full "
+            "type, other type} x 7 server key sets x {password, pkey}. Dimension 'near-miss impostor keys' (B and C): "
+            "among the different keys of the same type a server may present are twins of the expected / known key "
+            "that share all but one public component with it and whose private half the server really holds - the "
+            "negated EC point (same curve, same x, y' = p - y, scalar n - d) and the same RSA modulus with another "
+            "public exponent. Dimension 'process history' (A and B, full "
             "cross): {no earlier session, an earlier complete genuine session in the same process - new transports, "
             "same host key (A) / a server really holding the expected key K (B), host key verified, password "
             "accepted, closed again}; the connection under test starts from that non-initial process state. "
-            "C: SSHClient.connect over 16 known_hosts "
-            "shapes (same key, different key same type, only other types, hashed, [host]:port, default-port-only "
+            "C: SSHClient.connect over 21 known_hosts "
+            "shapes (same key, different key same type incl. the near-miss twins, only other types, hashed, [host]:port, default-port-only "
             "vs other port, other host, empty, two server key types) x 5 policies x {load_host_keys, "
             "load_system_host_keys} x GSS-API option {not requested, gss_kex requested but not negotiated, "
             "gss_auth requested} (the server offers no GSS-API method, so an ordinary key exchange with an "
@@ -75,7 +79,45 @@ def ec2():
     return _EC2[0]
 
 
+_TWINS = {}
+_EC_ORDER = {"secp256r1": 0xFFFFFFFF00000000FFFFFFFFFFFFFFFFBCE6FAADA7179E84F3B9CAC2FC632551}
+
+
+def twin(name):
+    """Near-miss impostor keys: a DIFFERENT key of the same type that shares all but one public component with a
+    fixture key, and whose private half the impostor really holds (it signs the exchange hash correctly).
+    ecdsa-256-neg: the negated point of F.key("ecdsa-256") - same curve, same x, y' = p - y, scalar n - d.
+    rsa-same-n:    the modulus of F.key("rsa") with another public exponent (d' = e'^-1 mod phi)."""
+    if name not in _TWINS:
+        if name == "ecdsa-256-neg":
+            from cryptography.hazmat.primitives.asymmetric import ec
+            sk = F.key("ecdsa-256").signing_key
+            neg = ec.derive_private_key(_EC_ORDER[sk.curve.name] - sk.private_numbers().private_value, sk.curve)
+            k = paramiko.ECDSAKey(vals=(neg, neg.public_key()))
+            a, b = F.key("ecdsa-256").verifying_key.public_numbers(), k.verifying_key.public_numbers()
+            ok = a.x == b.x and a.y != b.y
+        elif name == "rsa-same-n":
+            import math
+            from cryptography.hazmat.primitives.asymmetric import rsa
+            pn = F.key("rsa").key.private_numbers()
+            phi = (pn.p - 1) * (pn.q - 1)
+            e = [c for c in (257, 17, 65539, 5, 3, 11) if c != pn.public_numbers.e and math.gcd(c, phi) == 1][0]
+            d = pow(e, -1, phi)
+            k = paramiko.RSAKey(key=rsa.RSAPrivateNumbers(
+                pn.p, pn.q, d, d % (pn.p - 1), d % (pn.q - 1), pn.iqmp,
+                rsa.RSAPublicNumbers(e, pn.public_numbers.n)).private_key())
+            ok = k.public_numbers.n == pn.public_numbers.n and k.public_numbers.e != pn.public_numbers.e
+        else:
+            raise KeyError(name)
+        if not ok or not k.can_sign():
+            raise RuntimeError("C17 harness: twin key %s is not the near miss it should be" % name)
+        _TWINS[name] = k
+    return _TWINS[name]
+
+
 def getkey(name):
+    if name in ("ecdsa-256-neg", "rsa-same-n"):
+        return twin(name)
     if name == "ed25519-b":
         return ED2
     if name == "ecdsa-256-b":
@@ -461,7 +503,9 @@ def cases_a(tier):
 
 
 # ============================================================================== part B
-SERVER_KEYSETS = (("ed25519",), ("rsa",), ("ecdsa-256",), ("ed25519", "rsa"), ("ecdsa-256", "ed25519", "rsa"))
+SERVER_KEYSETS = (("ed25519",), ("rsa",), ("ecdsa-256",), ("ed25519", "rsa"), ("ecdsa-256", "ed25519", "rsa"),
+                  # impostors holding a near-miss twin of the expected key (see twin())
+                  ("ecdsa-256-neg",), ("rsa-same-n",))
 EXPECTED = ("ed25519", "ed25519-b", "rsa", "rsa-b", "ecdsa-256", "ecdsa-256-b")
 
 
@@ -475,8 +519,10 @@ def connect_b(keyset, expected, how, gss="none", prior="none"):
             # earlier in this process: Transport.connect(hostkey=K) to a server that really holds K
             genuine_session(s, getkey(expected), connect_with_hostkey=True)
         srv = make_server()
-        p = F.Pair(server=srv, hostkeys=keyset, tclass=VTransport,
+        p = F.Pair(server=srv, hostkeys=(), tclass=VTransport,
                    client_kw={"gss_kex": True} if gss == "gss-kex-requested" else None)
+        for hk in keyset:
+            p.ts.add_server_key(getkey(hk))
         hold["p"], hold["srv"] = p, srv
         p.tc.auth_timeout = 3
         p.ts.start_server(paramiko.transport.threading.Event(), srv)
@@ -567,6 +613,12 @@ def kh_configs():
     c.append(("two-server-keys-known-rsa-same", ("ed25519", "rsa"), 22, line(HOST, "rsa")))
     c.append(("two-server-keys-known-rsa-different", ("ed25519", "rsa"), 22, line(HOST, "rsa-b")))
     c.append(("two-server-keys-known-ecdsa-only", ("ed25519", "rsa"), 22, line(HOST, "ecdsa-256")))
+    # the server is an impostor holding a near-miss twin of the known key (same type, all but one public component
+    # equal, valid private half): negated EC point (x, p-y); RSA modulus with another public exponent
+    c.append(("different-key-same-type-negated-ec-point", ("ecdsa-256-neg",), 22, line(HOST, "ecdsa-256")))
+    c.append(("different-key-same-type-rsa-same-modulus", ("rsa-same-n",), 22, line(HOST, "rsa")))
+    c.append(("hashed-port-entry-different-key-negated-ec-point", ("ecdsa-256-neg",), 2222,
+              line(H.hashed_name(hp, SALT), "ecdsa-256")))
     c.append(("comma-names-same-key", ("ecdsa-256",), 22, line("alias.test," + HOST, "ecdsa-256")))
     c.append(("same-type-two-lines-other-then-same", ("ed25519",), 22,
               line(HOST, "rsa") + line("other.test", "ed25519-b") + line(HOST, "ed25519")))
@@ -884,8 +936,9 @@ def main(tier):
     ck = core.Check(PID, tier, "exploration",
                     "A: case = (kex, scenario, delivery order, auth call, quiescent point at which it is made, process "
                     "history: none / a genuine session with the same host key before); "
-                    "B: (server key set, expected key, auth, GSS option, process history: none / a genuine "
-                    "Transport.connect(hostkey=K) session with a holder of K before); C: (known_hosts shape, policy, store, GSS "
+                    "B: (server key set incl. near-miss twins of the expected key - negated EC point, same RSA modulus with "
+                    "another exponent -, expected key, auth, GSS option, process history: none / a genuine "
+                    "Transport.connect(hostkey=K) session with a holder of K before); C: (known_hosts shape incl. servers presenting a near-miss twin of the known key, policy, store, GSS "
                     "option: none / gss_kex requested but not negotiated / gss_auth requested, credential source: "
                     "password / pkey / auth_strategy, client history: fresh / used for another host before). nontrivial = "
                     "distinct cases in which the connection was really driven to that point / configuration and "
